@@ -260,14 +260,10 @@ func splitNode[T any](n *node[T], pos int) (*node[T], error) {
 		return nil, err
 	}
 	ret := p.newChild(segs[0])
-	c := ret.newChild(segs[1])
-	c.handlers = n.handlers
-	c.methodIndex = n.methodIndex
-	c.children = n.children
-	c.indexes = n.indexes
-	for _, item := range c.children {
-		item.parent = c
-	}
+	// n 本身作为后一段保留，OPTIONS 和 405 的处理函数引用着该对象。
+	n.segment = segs[1]
+	n.parent = ret
+	ret.children = append(ret.children, n)
 
 	// ret 和 c 的内容在 newChild 之后被修改，所以需要对其子元素重新排序。
 	ret.sort()
